@@ -1,5 +1,5 @@
 """Property -> rules.  Each entry: run(prog, tier) -> (obligations, floors, meta)."""
-from .rules import bounds, arith, index, numctor, cmp, jsonw, memo, strict, lookup, tls, imports, hashord
+from .rules import bounds, arith, index, numctor, cmp, jsonw, memo, strict, lookup, tls, imports, hashord, capi
 
 COMMON_TRUST = [
     "rustc nightly HIR/MIR construction, trait resolution and const evaluation",
@@ -210,6 +210,33 @@ def c07(prog, tier):
     return obs, floors, meta
 
 
+def c15(prog, tier):
+    obs, floors, an = merge(capi.run_enter(prog), capi.run_siblings(prog), capi.run_prov(prog), capi.run_exit(prog), capi.run_visit(prog),
+                            capi.run_format_map(prog), only(tls.run(prog), ("jrsonnet::main_real", "jrsonnet_cli::", "jrsonnet_evaluator::stack::set_stack")),
+                            only(imports.run(prog), ("cli:jpath-order",)))
+    meta = {
+        "level": "other",
+        "explanation": (
+            "Static decision of the structural wiring behind C15. R-ENTER: all 7 entry points (main_real + the six "
+            "jsonnet_evaluate_* C functions) enter their State, hold the guard, and only then evaluate. R-SIBLING: the six C "
+            "entry points have the same pipeline import|evaluate_snippet -> apply_tla(vm.tla_args) -> manifest|val_to_multi|"
+            "val_to_stream(vm.manifest_format); NUL framing of multi/stream results. R-PROV: the 8 option loops (--ext-*/--tla-*) "
+            "take the key from .name and the payload from .value/.path with the TlaArg variant of their flavour. R-TABLE: -f "
+            "format map, default paddings, -S/-y wrapping, C API default format = CLI default. R-EXIT: error -> exit 1. "
+            "R-TLS: --max-stack guard held for the whole of main_real. R-COVER(visit): the AST visitor used by jrsonnet-deps "
+            "binds and visits every sub-expression of every node (no `..`, no wildcard), flags exactly `import` as code, and "
+            "collect_deps recurses on that flag. NOT decided: byte equality of outputs."),
+        "rule": "MIR dominance/guard-liveness (R-ENTER, R-TLS), resolved-callee pipelines of sibling functions (R-SIBLING), HIR field provenance (R-PROV), HIR tables (R-TABLE), HIR pattern coverage (R-COVER)",
+        "rules": ["R-ENTER", "R-SIBLING", "R-PROV", "R-TABLE", "R-EXIT", "R-TLS", "R-COVER", "R-IMPORT"],
+        "analysed": an,
+        "decided": "entered state; sibling pipelines; option provenance; format map; exit status; visitor coverage",
+        "not_decided": "output equality between CLI, library and C API; native callback memory safety (see DESIGN R-UAF)",
+        "trusted_base": COMMON_TRUST,
+        "assumptions": [],
+    }
+    return obs, floors, meta
+
+
 def c16(prog, tier):
     obs, floors, an = merge(hashord.run(prog), tls.run(prog), only(imports.run(prog), ("import_resolved:reset", "import_resolved:marker")))
     meta = {
@@ -288,6 +315,7 @@ def c05(prog, tier):
 PROPS = {
     "C02": {"run": c02, "thorough_cfgs": ["default", "experimental"]},
     "C07": {"run": c07, "thorough_cfgs": ["default"]},
+    "C15": {"run": c15, "thorough_cfgs": ["default", "capi-nodefault"]},
     "C16": {"run": c16, "thorough_cfgs": ["default", "experimental"]},
     "C03": {"run": c03, "thorough_cfgs": ["default", "experimental"]},
     "C05": {"run": c05, "thorough_cfgs": ["default", "experimental"]},
